@@ -34,6 +34,11 @@ CLAIMED = {
    note="Trusted: TLC; Detection/Modifiers/CondLang as the reference semantics of Sigma; QueryLang as the semantics of the /verif target syntax; the backend family's templates (harness/backend.py, class data only). Atoms are compared syntactically after canonicalisation (startswith/endswith/contains/in-list/not-equals/not-exists spellings decode to the same atom), i.e. distinct atoms are treated as independent. Three recorded deviations (raw field in native CIDR; two in not-equals mode).",
    technique="TLA+ models of rule semantics and of the target query language; design model-checked with TLC; TLC-generated rules x configurations replayed into the converter; TLC parses and judges every emitted query by truth table",
    ref="6/C01"),
+ "C09": dict(level=MC,
+   text="TLC model-checks spec/Collection.tla (MC_Collection): for every rule-set shape <=5/6 documents and EVERY permutation the system resolves references, orders depth-first and converts one rule per transition; invariants: a correlation rule is converted only after everything it refers to, the emitted set is permutation-independent and follows the generate rule, the order is a stable permutation. Negative control: the same model with the former ordering (sorted() with a partial order, transcribed from CPython's binary insertion sort) must be refuted by TLC. Conformance: every (shape, permutation, load path in {from_yaml, from_dicts, merge, load_ruleset}) is run on the real code; the recorded trace Load/Resolve(order)/Convert(d)*/Output is replayed through the spec's conversion state machine by TLC and all runs of one shape must yield the same (document, query) pairs.",
+   note="Trusted: TLC, Collection.tla, the driver's recording of rule order and conversion callback events (public callback parameter of Backend.convert). Documents referenced both with and without generate are Unspecified and not generated.",
+   technique="TLA+ state machine of reference resolution/ordering/conversion model-checked over all permutations; traces of the real code validated against it with TLC",
+   ref="6/C09"),
 }
 REASON_NOT_BUILT = "check not built yet in this round (see DESIGN.md section 6 for the planned TLA+ model); not claimed until its judge is sound"
 ALL = [f"C{i:02d}" for i in range(1, 21)]
